@@ -44,7 +44,8 @@ def dump_simulated_recession(
                         list(
                             list(item)
                             for item in zip(
-                                avg_zeta_cm.tolist(),
+                                # Column is headed mm
+                                (avg_zeta_cm * 10).tolist(),
                                 avg_elapsed_time_d.tolist(),
                                 elapsed_time_d.tolist(),
                             )
